@@ -166,6 +166,9 @@ type chooser struct {
 	salt string
 	pct  int
 	nils *int // if set, counts the nil elements put inside fed containers
+	// ifaces, if set, gives interface-typed fields a default (three in four):
+	// a pointer to IfaceImpl or an IfaceScalars value; it receives the labels
+	ifaces *[]string
 }
 
 func (c chooser) chosen(path string) bool { return int(mix(c.seed, c.salt+"?", path)%100) < c.pct }
@@ -205,6 +208,26 @@ func fillGeneric(v reflect.Value, path string, c chooser) int {
 		}
 		f := v.Field(i)
 		switch {
+		case sf.Type.Kind() == reflect.Interface && c.ifaces != nil && f.CanSet():
+			// the default of an interface-typed field: Pointerify devirtualises
+			// a (pointer to a) struct found here and the flag sources register
+			// one flag per member
+			seed := mix(c.seed, c.salt+"/iface", p)
+			switch seed % 4 {
+			case 0:
+				*c.ifaces = append(*c.ifaces, "iface-default:nil")
+			case 1:
+				// a struct BY VALUE is not addressable: only members whose
+				// registration does not take their address
+				f.Set(shape.MakeValue(reflect.TypeOf(IfaceScalars{}), seed|1, plain))
+				*c.ifaces = append(*c.ifaces, "iface-default:struct-value")
+			default:
+				pv := reflect.New(reflect.TypeOf(IfaceImpl{}))
+				pv.Elem().Set(shape.MakeValue(reflect.TypeOf(IfaceImpl{}), seed|1, plain))
+				f.Set(pv)
+				*c.ifaces = append(*c.ifaces, "iface-default:ptr-struct")
+			}
+			n++
 		case sf.Type.Kind() == reflect.Chan || sf.Type.Kind() == reflect.Func || sf.Type.Kind() == reflect.Interface:
 			continue
 		case isLeafType(sf.Type):
@@ -476,6 +499,10 @@ func finish(c TypesCase, o typesOutcome) vrt.Verdict {
 	return vrt.OK((namedNonScalar || c.Compiled != "") && o.fed > 0, labels...)
 }
 
+// lastIfaceLabels carries the interface-default labels of the most recent
+// buildCase to the step that called it (checks run sequentially).
+var lastIfaceLabels []string
+
 func buildCase(c TypesCase) (T, pt reflect.Type, tmpl reflect.Value, v *vrt.Verdict) {
 	check := "C16.types-" + c.Source
 	if c.Source == "json" || c.Source == "yaml" || c.Source == "toml" || c.Source == "cue" {
@@ -506,7 +533,13 @@ func buildCase(c TypesCase) (T, pt reflect.Type, tmpl reflect.Value, v *vrt.Verd
 		}
 	}
 	tmpl = reflect.New(T)
-	fillGeneric(tmpl.Elem(), "", chooser{seed: c.Fill, salt: "default", pct: c.DefPct})
+	def := chooser{seed: c.Fill, salt: "default", pct: c.DefPct}
+	var ifaceLabels []string
+	if c.Source == "flag" || c.Source == "pflag" {
+		def.ifaces = &ifaceLabels
+	}
+	fillGeneric(tmpl.Elem(), "", def)
+	lastIfaceLabels = ifaceLabels
 	pt, perr := pointerifySafe(T, tmpl.Elem())
 	if perr != nil {
 		// what dials.Config does first with every config type
@@ -603,6 +636,7 @@ func flagStep(c TypesCase) (o typesOutcome, dv *vrt.Verdict) {
 	if dv != nil {
 		return o, dv
 	}
+	o.labels = append(o.labels, lastIfaceLabels...)
 	leaves, nerr := flatLeaves(pt, c.Source)
 	if nerr != nil {
 		o.labels = append(o.labels, "names-unavailable")
@@ -887,7 +921,7 @@ func manglerStep(ms []transform.Mangler, c TypesCase) (o typesOutcome, dv *vrt.V
 			o.fed = fillStringCast(mv, pt, chooser{seed: c.Fill, salt: "feed", pct: c.SetPct})
 		} else {
 			nils := 0
-			o.fed = fillGeneric(mv, "", chooser{c.Fill, "feed", c.SetPct, &nils})
+			o.fed = fillGeneric(mv, "", chooser{seed: c.Fill, salt: "feed", pct: c.SetPct, nils: &nils})
 			if nils > 0 {
 				o.labels = append(o.labels, "nil-elements-fed")
 			}
@@ -1066,7 +1100,7 @@ var typesAssumptions = []string{
 	"flattened leaf names are distinct (the generator renames; a replayed case that violates this is discarded)",
 	"reusing one source / decoder value for several config types is legal use: nothing in the Source / Decoder contract binds a value to a type (the flag and pflag Sets, which take a template at construction, are excluded)",
 	"a panic of ptrify.Pointerify on the config type (the first thing dials.Config does) is reported as a violation keyed pointerify-panic",
-	"the config type holds no interface-typed fields",
+	"interface-typed fields occur only in the flag / pflag checks (fields of type any and fmt.Stringer whose template default is nil, a pointer to a struct, or a struct value with scalar / named / nested / pointer members only); everywhere else the config type holds none",
 	"about a third of the pointer-typed elements inside fed slices, arrays and maps are nil (a null inside a list or map is valid input wherever the format can spell it; an encoder that cannot, e.g. TOML, makes the case trivial)",
 	"input is valid: every fed value is built from a seed with finite floats and plain strings and spelled in the source's documented syntax (or with the format's own encoder)",
 	"while a root-cause key is listed as known in known_findings.json, half of the cases leave out the constructs that trigger it (label behind-known unnecessary: the shape itself shows it)",
@@ -1089,6 +1123,7 @@ func TestC16TypesFlag(t *testing.T) {
 		Rule: typesRuleCommon + "The std flag source is built from a template with seeded defaults (def_pct), then every chosen leaf that got a flag registered receives -name=<documented spelling of a seeded value> through the exported ParseFunc; " +
 			"the leaf grammar of the flag and pflag checks also holds user types that parse their own flag text, top-level or nested: flag.Value WITHOUT Get (FVLevel uint8, FVName string, FVPoint struct - Set + String on the pointer, which is all flag.Value asks for), flag.Getter (FGLevel: Get returns the value, FGName: the pointer, FGPoint), pflag.Value (PVLevel, PVName, PVPoint: Set + String + Type, hence also flag.Values without Get), user pointers to them, and FVPlain (a struct with Set + String but no text methods, which dials flattens); " +
 			"their flags are given (valid text; in a fifth of the cases text their own Set refuses) or omitted (set_pct); " +
+			"interface-typed fields (any, fmt.Stringer) get a template default that is nil (a quarter), an IfaceScalars struct value (a quarter) or a pointer to IfaceImpl (half; members of every flag kind: scalars, duration, []string, []int32, complex, text types, time, map, named, nested struct, pointer, flag.Value): Pointerify devirtualises them, one flag per member is registered and given like any other; " +
 			"the grammar holds EVERY leaf type the flag sources register: all scalar widths, float32, complex64, uintptr, time.Duration, time.Time, []string, every integral slice ([]int, []int8 .. []int64, []uint, []uint8 .. []uint64, []uintptr), map[string]string, map[string][]string, map[string]struct{}; the label given:<type> counts how often a flag of each type was actually passed; " +
 			"oracle: NewSetWithArgs and Value return, without panic, either an error or a value of the pointerified type; " +
 			"non-trivial = named non-scalar leaf present and at least one flag passed; distinct = distinct case JSON",
